@@ -1,6 +1,6 @@
 """C02 direct check: enumerate every proposal of every enabled mutator (last
-hierarchical pass) on a final output with ddSMT's own Producer and run the
-command on each.  usage: fixpoint_check.py <result.json> <ddsmt options...> <infile> <outfile> <cmd...>
+hierarchical pass) on a final output independently of ddSMT's Producer, compare with what
+the Producer generates, and run the command on each.  usage: fixpoint_check.py <result.json> <ddsmt options...> <infile> <outfile> <cmd...>
 (infile = the ORIGINAL input, used for theory detection and the golden run;
 outfile = ddSMT's output, the input that must be a fixed point)"""
 import json
@@ -39,23 +39,56 @@ class NoAbort:
         return False
 
 
+def key_of(simp):
+    return (sorted((str(k), str(v)) for k, v in simp.substs.items()), [str(v) for v in simp.fresh_vars])
+
+
+# what ddSMT's own Producer generates for the last pass ...
 prod = sh.Producer(last, NoAbort(), exprs)
+produced = []
+for task in prod.generate(0, params):
+    produced.append((task.nodeid, task.name, key_of(pickle.loads(task.simp))))
+
+# ... and the specification: every node (breadth first), every enabled mutator that accepts it, all of its local and
+# all of its global simplifications.  A failing mutator contributes what it delivered before failing.
+spec = []
+count = 0
+for node in nodes.bfs(exprs, params.get('max_depth', None)):
+    count += 1
+    for m in last:
+        try:
+            if hasattr(m, 'filter') and not m.filter(node):
+                continue
+            if hasattr(m, 'mutations'):
+                for x in m.mutations(node):
+                    spec.append((count, str(m), x))
+            if hasattr(m, 'global_mutations'):
+                for x in m.global_mutations(node, exprs):
+                    spec.append((count, f'(global) {m}', x))
+        except Exception:  # noqa
+            pass
+spec_keys = [(c, nm, key_of(x)) for c, nm, x in spec]
+missing = [k for k in spec_keys if k not in produced]
+extra = [k for k in produced if k not in spec_keys]
 n = 0
 accepted = []
 errors = 0
 names = set()
-for task in prod.generate(0, params):
+for c, nm, x in spec:
     n += 1
-    names.add(task.name)
+    names.add(nm)
     try:
-        cand = apply_simp(pickle.loads(task.exprs), pickle.loads(task.simp))
+        cand = apply_simp(exprs, type(x)(dict(x.substs), list(x.fresh_vars)))
         ok = checker.check_exprs(cand)
     except Exception as e:  # noqa
         errors += 1
         ok = False
     if ok:
-        accepted.append(dict(nodeid=task.nodeid, mutator=task.name, candidate=nodeio.write_smtlib_to_str(cand)[:2000]))
+        accepted.append(dict(nodeid=c, mutator=nm, candidate=nodeio.write_smtlib_to_str(cand)[:2000],
+                             generated_by_producer=(c, nm, key_of(x)) in produced))
         if len(accepted) >= 3:
             break
 json.dump(dict(proposals=n, accepted=accepted, errors=errors, mutators=sorted(names), nnodes=nodes.count_nodes(exprs),
-               enabled=[type(m).__name__ for m in last]), open(RESULT, 'w'))
+               enabled=[type(m).__name__ for m in last], produced=len(produced),
+               missing=[[c, nm, repr(k)[:300]] for c, nm, k in missing[:5]], nmissing=len(missing),
+               extra=[[c, nm, repr(k)[:300]] for c, nm, k in extra[:5]], nextra=len(extra)), open(RESULT, 'w'))
